@@ -425,4 +425,4 @@ def run(ctx) -> None:
         "pause": st.sampled_from([0.0, 0.0, 0.01, 0.04, 0.06, 0.5, 1.2, 3.0, 30.0]),
         "cancel_jitter": st.sampled_from([0.0, 0.0, 0.01, -0.01, 0.025]),
         "garbage": st.binary(min_size=1, max_size=40).map(lambda b: b.hex())})
-    ctx.hyp("part C", cases, lambda c: _run_one(ctx, c), ctx.n(300, 48000))
+    ctx.hyp("part C", cases, lambda c: _run_one(ctx, c), ctx.n(1600, 96000))
